@@ -204,51 +204,41 @@ func run(c *harness.Ctx, i int) {
 		defer srv.Close()
 		addr = strings.TrimPrefix(srv.URL, "http://")
 	} else {
-		l, err := net.Listen("tcp", "127.0.0.1:0")
-		dsu.Must(err)
-		addr = l.Addr().String()
-		l.Close()
-		var args []string
-		if server == "chunk" {
-			cfgFile := filepath.Join(dir, "config.json")
-			dsu.WriteFile(cfgFile, []byte(fmt.Sprintf(`{"store-options": {%q: {"uncompressed": %v}}}`, served, uncompressed)))
-			args = []string{"--config", cfgFile, "chunk-server", "-s", served, "-l", addr, fmt.Sprintf("--skip-verify-write=%v", !verifyWrite), "--skip-verify-read=false"}
-			if uncompressed {
-				args = append(args, "-u")
-			}
-		} else {
-			args = []string{"index-server", "-s", served, "-l", addr}
-		}
-		if writable {
-			args = append(args, "-w")
-		}
-		env := append(os.Environ(), "HOME="+dir)
-		if useAuth {
-			if authVia == "flag" {
-				args = append(args, "--authorization", secret)
-			} else {
-				env = append(env, "DESYNC_HTTP_AUTH="+secret)
-			}
-		}
-		cmd := exec.Command(cli, args...)
-		cmd.Env = env
 		var stderr bytes.Buffer
-		cmd.Stderr = &stderr
-		dsu.Must(cmd.Start())
-		defer func() { cmd.Process.Kill(); cmd.Wait() }()
-		up := false
-		for w := 0; w < 300; w++ {
-			if cn, err := net.Dial("tcp", addr); err == nil {
-				cn.Close()
-				up = true
-				break
+		a, cmd, err := dsu.StartServerCmd(func(addr string) *exec.Cmd {
+			var args []string
+			if server == "chunk" {
+				cfgFile := filepath.Join(dir, "config.json")
+				dsu.WriteFile(cfgFile, []byte(fmt.Sprintf(`{"store-options": {%q: {"uncompressed": %v}}}`, served, uncompressed)))
+				args = []string{"--config", cfgFile, "chunk-server", "-s", served, "-l", addr, fmt.Sprintf("--skip-verify-write=%v", !verifyWrite), "--skip-verify-read=false"}
+				if uncompressed {
+					args = append(args, "-u")
+				}
+			} else {
+				args = []string{"index-server", "-s", served, "-l", addr}
 			}
-			time.Sleep(10 * time.Millisecond)
-		}
-		if !up {
-			c.Inconclusive("server did not come up: %s", stderr.String())
+			if writable {
+				args = append(args, "-w")
+			}
+			env := append(os.Environ(), "HOME="+dir)
+			if useAuth {
+				if authVia == "flag" {
+					args = append(args, "--authorization", secret)
+				} else {
+					env = append(env, "DESYNC_HTTP_AUTH="+secret)
+				}
+			}
+			cmd := exec.Command(cli, args...)
+			cmd.Env = env
+			cmd.Stderr = &stderr
+			return cmd
+		})
+		if err != nil {
+			c.Inconclusive("server did not come up: %v %s", err, stderr.String())
 			return
 		}
+		defer dsu.StopServerCmd(cmd)
+		addr = a
 	}
 
 	type pathCase struct {
